@@ -113,7 +113,10 @@ fn observer(kind: ObsKind, addr: usize, size: usize, align: usize) {
             }
             m.box_bytes -= rec.size;
             if let Ok(mut f) = wd.freed_boxes.try_borrow_mut() {
-                f.push(addr);
+                // remember which allocation this is (the allocator's sequence number of the block): the address may be
+                // handed out again to another block before the next quiescent point
+                let seq = if tracking { valloc::lookup(addr).map_or(0, |b| b.seq) } else { 0 };
+                f.push((addr, seq));
             }
             match rec.owner {
                 BoxOwner::Node(id) => {
@@ -1503,10 +1506,11 @@ pub fn check_qp(wd: &World, at: &str) {
             }
         }
         // boxes the crate says it released must really be gone
-        let freed: Vec<usize> = std::mem::take(&mut *wd.freed_boxes.borrow_mut());
-        for a in freed {
+        let freed: Vec<(usize, u64)> = std::mem::take(&mut *wd.freed_boxes.borrow_mut());
+        for (a, seq) in freed {
             if let Some(b) = valloc::lookup(a) {
-                if !b.parked && !wd.m.borrow().boxes.contains_key(&a) {
+                // the very same allocation (same sequence number), not a later block that received the address
+                if !b.parked && b.seq == seq && !wd.m.borrow().boxes.contains_key(&a) {
                     wd.err("C11", "dealloc_not_performed", "box_accounted_free_but_still_allocated".into(), format!("the crate accounted the release of the box at {:#x} but the block is still allocated", a));
                 }
             }
